@@ -632,7 +632,11 @@ func (db *DB) transact(ops []Op, commit bool) *Outcome {
 				if c == nil {
 					return fail(op.Kind, "error", "unknown column "+m.Col)
 				}
-				if c.Immutable {
+				// (ovsdb-server refuses the mutation of an immutable column when it parses the
+				// operation; the library looks at mutations row by row, so one whose where
+				// clause selects nothing is answered with count 0: no effect either way, and
+				// only a mutation that reaches a row is judged)
+				if c.Immutable && len(us) > 0 {
 					return fail(op.Kind, "constraint violation", "mutation of immutable column "+m.Col)
 				}
 			}
